@@ -161,11 +161,13 @@ pub fn run_and_judge(table: &Table, layout: &Layout, q: &Query, cache: &mut Opti
 /// verdict; the oracle fires when the reference rejects the engine's answer.
 pub fn outcome(table: &Table, q: &Query, j: &Judged, extra_why: &str) -> Outcome {
     let verdict_ok = j.verdict.is_ok();
+    // the model's checker treats float sums as wildcards; the numeric comparison is the harness's
+    let verdict_wild = verdict_ok || refeval::valid_wildcard(q, &table.rows(), &j.out);
     let model_input = Sx::l(vec![table.rows_sx(), q.sx(), j.out.sx()]);
     Outcome {
         model: Some("q_valid".into()),
         model_input: Some(model_input),
-        impl_out: Some(Sx::boolean(verdict_ok)),
+        impl_out: Some(Sx::boolean(verdict_wild)),
         oracle: j.verdict.as_ref().err().map(|r| format!("`{}`{} -> {}; engine returned {}", q.sql(table), extra_why, r, short(&j.out))),
         signature: if verdict_ok { None } else { Some(signature_of(q, j)) },
         nontrivial: table.nrows() >= 2,
